@@ -652,7 +652,7 @@ def _callable_for(n, form):
     return f
 
 
-def build(p, path="", form="U", check_interface=True):
+def build(p, path="", form="U", check_interface=True, grow=False):
     """Build the program bottom-up with the public constructors; raises Rejected."""
     import warnings
 
@@ -693,6 +693,24 @@ def build(p, path="", form="U", check_interface=True):
     kw = {}
     if p["explicit"]:
         kw["edges"] = [(e["src"], e["dst"]) if e["auto"] else (e["src"], e["dst"], list(e["vals"])) for e in p["edges"]]
+    if grow and path == "" and not p["explicit"] and len(nodes) >= 2:
+        # construction HISTORY: the longest buildable prefix of the node list, then add_nodes() for the rest
+        # (the outcome must be that of building the whole list at once)
+        name = None if p["name"] == NONE else p["name"]
+        for k in range(len(nodes) - 1, 0, -1):
+            try:
+                with warnings.catch_warnings():
+                    warnings.simplefilter("ignore")
+                    g = Graph(nodes[:k], name=name, strict_types=p["strict"])
+            except Exception:  # noqa: BLE001 - this prefix is not a graph on its own
+                continue
+            try:
+                with warnings.catch_warnings():
+                    warnings.simplefilter("ignore")
+                    return g.add_nodes(*nodes[k:])
+            except Exception as e:  # noqa: BLE001
+                raise Rejected("graph-ctor", path, e) from e
+        raise NoPrefix()
     try:
         with warnings.catch_warnings():
             warnings.simplefilter("ignore")
@@ -701,11 +719,17 @@ def build(p, path="", form="U", check_interface=True):
         raise Rejected("graph-ctor", path, e) from e
 
 
-def observe(p, form="U"):
+class NoPrefix(Exception):
+    """No proper prefix of the node list is a valid graph: the construction history cannot be exercised."""
+
+
+def observe(p, form="U", grow=False):
     """Outcome of constructing p with the real package (message texts are ignored)."""
     from hypergraph.graph.validation import GraphConfigError
     try:
-        build(p, form=form)
+        build(p, form=form, grow=grow)
+    except NoPrefix:
+        return None
     except Rejected as r:
         e = r.exc
         if r.stage == "graph-ctor" and isinstance(e, GraphConfigError):
